@@ -66,7 +66,8 @@ class SymUniform:
 
     def _le(self, t):
         ctx = self.ctx
-        t = core.num(t) if not isinstance(t, float) else core.num(RealFraction(t))
+        # float thresholds such as 1/(c-1) stand for the rational they approximate (real abstraction)
+        t = core.num(t) if not isinstance(t, float) else core.num(RealFraction(t).limit_denominator(1000))
         if ctx.truth(core.le(t, self.lo)):
             return False
         if ctx.truth(core.ge(t, self.hi)):
@@ -233,7 +234,11 @@ class NpRandomStub:
         out = []
         rem = list(range(len(a)))
         for _ in range(n):
-            live = [i for i in rem if ctx.truth(core.gt(p[i], 0))]
+            if getattr(ctx, "law_mode", False):
+                # probability laws: zero-probability entries contribute zero, no need to fork on p_i > 0
+                live = list(rem)
+            else:
+                live = [i for i in rem if ctx.truth(core.gt(p[i], 0))]
             if not live:
                 raise ValueError("Fewer non-zero entries in p than size")
             tot = core.add(*[p[i] for i in live])
